@@ -58,6 +58,16 @@ func (enc *Encoder) WriteBigFloat(f *big.Float) {
 		enc.WriteNil()
 		return
 	}
+	if f.IsInf() {
+		// an infinity has its own tag; "d+Inf;" is not a number a peer can read
+		enc.buf = append(enc.buf, TagInfinity)
+		if f.Signbit() {
+			enc.buf = append(enc.buf, TagNeg)
+		} else {
+			enc.buf = append(enc.buf, TagPos)
+		}
+		return
+	}
 	enc.buf = append(enc.buf, TagDouble)
 	enc.buf = f.Append(enc.buf, 'g', -1)
 	enc.buf = append(enc.buf, TagSemicolon)
